@@ -35,6 +35,9 @@ def names_strategy(draw):
     n = draw(st.one_of(st.integers(1, 6), st.integers(1, 40)))
     base = draw(st.lists(st.text(alphabet=NAME_ALPHABET, min_size=1, max_size=6), min_size=n, max_size=n, unique=True))
     tricky = draw(st.lists(st.sampled_from(TRICKY_NAMES), max_size=4, unique=True))
+    if draw(st.integers(0, 7)) == 0:
+        # second-order interaction features next to their constituents: ('a AND b', 'c') and ('a', 'b AND c') are different pairs
+        tricky = tricky + ['a', 'b', 'c', 'a AND b', 'b AND c', 'a AND c']
     base = [b for b in dict.fromkeys(base + tricky) if b != 'label' and ' AND_REL ' not in b] or ['f']
     # turn some into relation-feature names
     nrel = draw(st.integers(0, min(4, len(base) // 2)))
